@@ -397,6 +397,13 @@ func (rf *ReplicaFollower) preSync(leaderSp StartPoint) (sp StartPoint, err erro
 	rf.logger.Infof("gap : leader(%v), follower(%v)", leaderSp, sp)
 
 	if sp.IsInitial() || !sp.IsValid() || sp.RunId != leaderSp.RunId {
+		// the local cache belongs to another run id : drop it, SetRunId would keep its data under the leader's run id
+		if old := rf.channel.RunId(); old != "" && old != leaderSp.RunId {
+			if err = rf.channel.DelRunId(old); err != nil {
+				err = errors.Join(ErrRestart, err)
+				return
+			}
+		}
 		if err = rf.channel.SetRunId(leaderSp.RunId); err != nil {
 			err = errors.Join(ErrRestart, err)
 			return
